@@ -14,7 +14,11 @@ CONSTANTS Prop,         \* "C07" | "C08" | "C13": which universe
           SliceSeed     \* ... selected by this seed
 
 S == "/"
-MCEscapes == {"%2F", "%2f", "%20", "%41", "%C3%A9"}
+MCEscapes == {"%2F", "%2f", "%20", "%41", "%C3%A9", "%C3%B6", "%c3%b6", "%5E"}
+\* option text that must be percent-encoded in a path: "U+F6" stands for the letter o-umlaut (the harness writes it
+\* as UTF-8 into the route option), "^" for itself
+MCEncoded == [t \in {"U+F6", "^"} |-> IF t = "U+F6" THEN "%C3%B6" ELSE "%5E"]
+MCDecoded == [t \in {"%C3%B6", "%c3%b6", "%5E"} |-> IF t = "%5E" THEN "^" ELSE "U+F6"]
 
 Keep(h) == (h + SliceSeed) % SliceMod = 0
 
@@ -23,7 +27,9 @@ AllAbsent == [clientip |-> "absent", xff |-> "absent", xrealip |-> "absent", tls
 BaseCase == [prop |-> Prop, sub |-> "", tls |-> FALSE, kind |-> "http", method |-> "GET", rhost |-> "plain",
              path |-> <<S>>, query |-> <<>>, hdrs |-> "none", forged |-> AllAbsent, xfpval |-> "",
              routes |-> <<>>, cfgip |-> FALSE, cfgtls |-> FALSE, cfgsts |-> FALSE,
-             nrstatus |-> 404, nrpage |-> "", resp |-> "ok"]
+             nrstatus |-> 404, nrpage |-> "", resp |-> "ok",
+             peer |-> "v4",          \* the client connects over 127.0.0.1 ("v4") or ::1 ("v6")
+             cfgspell |-> "canon"]   \* configured header names in canonical MIME spelling, or as people write them ("odd": X-TLS, X-Client-IP)
 Ordinary(src, strip, prepend, hostopt, tq) ==
     [NoRouteRec EXCEPT !.src = src, !.strip = strip, !.prepend = prepend, !.hostopt = hostopt, !.tquery = tq]
 Tpl(scheme, host, pre, var, slash, q) == [scheme |-> scheme, host |-> host, pre |-> pre, var |-> var, slash |-> slash, query |-> q]
@@ -58,8 +64,31 @@ C07Ambiguous(p, s, pp) == LET rest == Drop(C07Paths[p], Len(C07Strips[s])) IN
                           /\ C07Prepends[pp] # <<>> /\ C07Strips[s] # <<>> /\ IsPrefix(C07Strips[s], C07Paths[p])
                           /\ (rest = <<>> \/ rest[1] # S)
 
+\* --- never sliced: option values that need escaping; the client may spell the strip prefix either way
+C07EncPaths    == << <<S, "s", "%C3%B6", "k", S, "a", "%2F", "b">>,      \* 1 /s%C3%B6k/a%2Fb
+                     <<S, "s", "%c3%b6", "k", S, "%41", "x">>,           \* 2 lower-case hex in the prefix
+                     <<S, "s", "%C3%B6", "k">>,                          \* 3 strip leaves nothing
+                     <<S, "a", "%5E", "b", S, "c", "%2f", "d">>,         \* 4 /a%5Eb/c%2fd
+                     <<S, "plain", S, "a", "%2F", "b">>,                 \* 5
+                     <<S, "plain", S, "a", S, "b">> >>                   \* 6 nothing escaped by the client
+C07EncStrips   == << <<>>, <<S, "s", "U+F6", "k">>, <<S, "a", "^", "b">> >>
+C07EncPrepends == << <<>>, <<S, "s", "U+F6", "k">>, <<S, "a", "^", "b">>, <<"U+F6">> >>
+C07EncAmbiguous(p, s, pp) == /\ C07EncPrepends[pp] # <<>> /\ C07EncStrips[s] # <<>> /\ IsPrefixDec(C07EncStrips[s], C07EncPaths[p])
+                             /\ LET rest == Drop(C07EncPaths[p], Len(C07EncStrips[s])) IN rest = <<>> \/ rest[1] # S
+\* --- never sliced: queries with empty parameters (leading, trailing, doubled "&")
+C07AmpQueries  == << <<"", "a=1">>, <<"a=1", "">>, <<"a=1", "", "b=2">>, <<"", "">>, <<"", "a=1", "">> >>
+C07AmpTQs      == << <<>>, <<"t=1">> >>
+\* --- never sliced: informational answers before the final one (103 Early Hints, 102 Processing) and
+\* requests with Expect: 100-continue; <<header set, upstream answer>>
+C07Interim     == << <<"none", "hints-created">>, <<"none", "hints-error">>, <<"multi", "processing-error">>,
+                     <<"none", "hints-hints-notfound">>, <<"expect", "created">>, <<"expect", "error">>,
+                     <<"expect", "ok">>, <<"expect", "hints-created">> >>
+
 C07Outer == {<<"fwd", m, p>> : m \in DOMAIN C07Methods, p \in DOMAIN C07Paths}
             \cup {<<"nr", m, p>> : m \in DOMAIN C07Methods, p \in DOMAIN C07NRPaths}
+            \cup {<<"enc", m, p>> : m \in {1, 2}, p \in DOMAIN C07EncPaths}
+            \cup {<<"amp", m, p>> : m \in {1, 2}, p \in {3, 4}}
+            \cup {<<"interim", m, p>> : m \in {2, 3}, p \in {3, 4}}
 C07Inner(o) ==
     IF o[1] = "fwd" THEN
         { [BaseCase EXCEPT !.sub = "fwd", !.method = C07Methods[o[2]], !.path = C07Paths[o[3]], !.query = C07Queries[t[1]],
@@ -70,6 +99,22 @@ C07Inner(o) ==
                          \X (DOMAIN C07TQs) \X (DOMAIN C07HR) :
                   /\ ~C07Ambiguous(o[3], u[2], u[3])
                   /\ Keep(o[2] + 7 * o[3] + 3 * u[1] + 11 * u[2] + 13 * u[3] + 17 * u[4] + 19 * u[5] + 23 * u[6]) } }
+    ELSE IF o[1] = "enc" THEN
+        { [BaseCase EXCEPT !.sub = "enc", !.method = C07Methods[o[2]], !.path = C07EncPaths[o[3]],
+                           !.tls = ((o[2] + o[3] + t[1] + t[2] + t[3]) % 2 = 0), !.query = C07Queries[t[3]],
+                           !.routes = << Ordinary(<<S>>, C07EncStrips[t[1]], C07EncPrepends[t[2]], "", <<>>) >>] :
+          t \in { u \in (DOMAIN C07EncStrips) \X (DOMAIN C07EncPrepends) \X {1, 2} : ~C07EncAmbiguous(o[3], u[1], u[2]) } }
+    ELSE IF o[1] = "amp" THEN
+        { [BaseCase EXCEPT !.sub = "amp", !.method = C07Methods[o[2]], !.path = C07Paths[o[3]],
+                           !.tls = ((o[2] + o[3] + t[1] + t[2] + t[3]) % 2 = 0), !.query = C07AmpQueries[t[1]],
+                           !.routes = << Ordinary(<<S, "strip">>, C07Strips[t[3]], <<>>, "", C07AmpTQs[t[2]]) >>] :
+          t \in (DOMAIN C07AmpQueries) \X (DOMAIN C07AmpTQs) \X {1, 2} }
+    ELSE IF o[1] = "interim" THEN
+        { [BaseCase EXCEPT !.sub = "interim", !.method = C07Methods[o[2]], !.path = C07Paths[o[3]],
+                           !.tls = ((o[2] + o[3] + t[1] + t[2]) % 2 = 0),
+                           !.hdrs = C07Interim[t[1]][1], !.resp = C07Interim[t[1]][2],
+                           !.routes = << Ordinary(<<S, "strip">>, C07Strips[t[2]], <<>>, "", <<>>) >>] :
+          t \in (DOMAIN C07Interim) \X {1, 2} }
     ELSE
         \* no route: the host has no route at all (n = 1) or only one under /strip (n = 2)
         { [BaseCase EXCEPT !.sub = "noroute", !.method = C07Methods[o[2]], !.path = C07NRPaths[o[3]], !.query = C07Queries[t[1]],
@@ -93,8 +138,23 @@ C08Kinds  == <<"http", "ws", "Ws">>                 \* no Upgrade / Upgrade: web
 C08Cfgs   == << <<TRUE, TRUE, TRUE>>, <<FALSE, FALSE, FALSE>>, <<TRUE, FALSE, FALSE>>, <<FALSE, TRUE, TRUE>> >>   \* clientip, tls header, sts
 C08HostOpts == <<"", "dst", "name">>
 C08RHosts == <<"plain", "ported">>
-C08Outer  == {<<n, st>> : n \in 0..255, st \in DOMAIN C08Styles} \ {<<0, 2>>, <<0, 3>>}
-C08Inner(o) ==
+\* --- never sliced: the peer's own address in the client's X-Forwarded-For, IPv4 and IPv6 peers, configured header
+\* names in the spelling people use.  Outer n >= 1000: <<1000 + xff style, others forged?>>
+C08XffStyles == <<"absent", "once", "twice", "sfx", "pfx", "dup">>
+C08PeerCfgs  == << <<TRUE, TRUE, TRUE, "canon">>, <<TRUE, TRUE, TRUE, "odd">>, <<FALSE, FALSE, FALSE, "canon">> >>
+C08Outer  == ({<<n, st>> : n \in 0..255, st \in DOMAIN C08Styles} \ {<<0, 2>>, <<0, 3>>})
+             \cup {<<1000 + x, y>> : x \in DOMAIN C08XffStyles, y \in {1, 2}}
+C08PeerInner(o) ==
+    { [BaseCase EXCEPT !.sub = "peer", !.tls = (t[1] = 2), !.kind = C08Kinds[t[2]], !.path = <<S, "h", S, "x">>,
+                       !.forged = [h \in DOMAIN AllAbsent |-> IF h = "xff" THEN C08XffStyles[o[1] - 1000]
+                                                              ELSE IF o[2] = 2 THEN "once" ELSE "absent"],
+                       !.xfpval = IF t[1] = 2 THEN "http" ELSE "https",
+                       !.cfgip = C08PeerCfgs[t[3]][1], !.cfgtls = C08PeerCfgs[t[3]][2], !.cfgsts = C08PeerCfgs[t[3]][3],
+                       !.cfgspell = C08PeerCfgs[t[3]][4],
+                       !.peer = IF t[4] = 1 THEN "v4" ELSE "v6",
+                       !.routes = << Ordinary(<<S>>, <<>>, <<>>, "", <<>>) >>] :
+      t \in {1, 2} \X (DOMAIN C08Kinds) \X (DOMAIN C08PeerCfgs) \X {1, 2} }
+C08Inner(o) == IF o[1] >= 1000 THEN C08PeerInner(o) ELSE
     { [BaseCase EXCEPT !.sub = "hdr", !.tls = (t[1] = 2), !.kind = C08Kinds[t[2]], !.path = <<S, "h", S, "x">>,
                        !.forged = C08Forged(o[1], o[2]),
                        !.xfpval = IF t[1] = 2 THEN "http" ELSE "https",       \* a forged X-Forwarded-Proto lies
